@@ -247,6 +247,21 @@ impl Obj {
     }
 }
 
+/// chain (MRU first, `key:value`) and sorted index keys of a RawLRU whose pointers have just been audited
+fn snapshot(c: &Raw) -> (String, String) {
+    let a = c.verif_audit(1 << 16);
+    let chain: Vec<String> = a.forward.iter().map(|(_, k, v)| format!("{}:{}", k.n, v.n)).collect();
+    let mut idx: Vec<u64> = Vec::new();
+    for (node, _, _) in &a.index {
+        if let Some((_, k, _)) = a.forward.iter().find(|(n, _, _)| n == node) {
+            idx.push(k.n);
+        }
+    }
+    idx.sort_unstable();
+    let idx: Vec<String> = idx.iter().map(|k| k.to_string()).collect();
+    (format!("[{}]", chain.join(" ")), format!("[{}]", idx.join(" ")))
+}
+
 struct Case {
     head: String,
     comp: String,
@@ -302,21 +317,58 @@ fn construct(c: &Case) -> Option<Obj> {
 
 /// one run of the case with a panic injected at the `target`-th user call (0 = never).
 /// Returns (ticks made, site that fired, first problem)
-fn run(case: &Case, target: u64) -> (u64, Option<&'static str>, Option<String>) {
+fn run(case: &Case, target: u64) -> (u64, Option<&'static str>, Option<String>, Option<String>) {
     reset_tracking();
     TICKS.with(|c| c.set(0));
     TARGET.with(|c| c.set(target));
     FIRED.with(|c| c.set(None));
     let mut problem: Option<String> = None;
+    let mut inj: Option<String> = None;
     let built = catch_unwind(AssertUnwindSafe(|| in_call(|| construct(case))));
     let mut obj = match built {
         Ok(Some(o)) => o,
-        _ => return (TICKS.with(|c| c.get()), FIRED.with(|c| c.get()), None),
+        _ => return (TICKS.with(|c| c.get()), FIRED.with(|c| c.get()), None, None),
+    };
+    // for a plain LRU the state before and after the operation a panic interrupts is recorded, to be compared with
+    // the abort-semantics model (lean/Caches/Model/Abort.lean) by `abortcheck`
+    let mut pre: Option<(String, String)> = match &obj {
+        Obj::Raw(c) if target != 0 => Some(snapshot(c)),
+        _ => None,
+    };
+    let mut precap: usize = match &obj {
+        Obj::Raw(c) => c.cap(),
+        _ => 0,
     };
     for line in &case.ops {
+        let fired_before = FIRED.with(|c| c.get()).is_some();
         let _ = catch_unwind(AssertUnwindSafe(|| obj.op(line)));
         match catch_unwind(AssertUnwindSafe(|| obj.audit())) {
-            Ok(Ok(())) => {}
+            Ok(Ok(())) => {
+                if let (Obj::Raw(c), Some(p)) = (&obj, &pre) {
+                    let fired_now = FIRED.with(|f| f.get());
+                    if !fired_before {
+                        let post = snapshot(c);
+                        if let Some(site) = fired_now {
+                            inj = Some(format!(
+                                "cap={} precap={} len={} | site={} | op={} | pre={} idx={} | post={} idx={}",
+                                c.cap(),
+                                precap,
+                                c.len(),
+                                site.replace(' ', "_"),
+                                line,
+                                p.0,
+                                p.1,
+                                post.0,
+                                post.1
+                            ));
+                            pre = None;
+                        } else {
+                            pre = Some(post);
+                            precap = c.cap();
+                        }
+                    }
+                }
+            }
             Ok(Err(e)) => {
                 if problem.is_none() {
                     problem = Some(format!("after `{}`: {}", line, e));
@@ -340,7 +392,7 @@ fn run(case: &Case, target: u64) -> (u64, Option<&'static str>, Option<String>) 
     if target == 0 && alive_count() != 0 && problem.is_none() {
         problem = Some(format!("no panic injected but {} object(s) leaked", alive_count()));
     }
-    (TICKS.with(|c| c.get()), FIRED.with(|c| c.get()), problem)
+    (TICKS.with(|c| c.get()), FIRED.with(|c| c.get()), problem, inj)
 }
 
 fn main() {
@@ -370,14 +422,17 @@ fn main() {
     let stdout = std::io::stdout();
     let mut out = stdout.lock();
     for case in &cases {
-        let (n, _, p0) = run(case, 0);
+        let (n, _, p0, _) = run(case, 0);
         if let Some(p) = p0 {
             writeln!(out, "FAIL {} | i=0 site=none | {}", case.head, p).unwrap();
         }
         let mut fired = 0u64;
         let mut sites: std::collections::BTreeMap<&'static str, u64> = Default::default();
         for i in 1..=n {
-            let (_, site, problem) = run(case, i);
+            let (_, site, problem, inj) = run(case, i);
+            if let Some(r) = inj {
+                writeln!(out, "INJ {} | i={} | {}", case.head, i, r).unwrap();
+            }
             if let Some(s) = site {
                 fired += 1;
                 *sites.entry(s).or_insert(0) += 1;
